@@ -128,6 +128,7 @@ def apply_edit(doc, e):
         df = d["defs"][ds["d"] - 1]
         df["name"], df["kind"], df["on"] = ds["name"], ds["kind"], ds["on"]
     d["nodes"] = d["nodes"] + [dict(n) for n in e["app"]]
+    d["defs"] = d["defs"] + [dict(x) for x in e.get("dapp", [])]
     return d
 
 
